@@ -248,7 +248,7 @@ def run_shard(ctx):
         info["sample"] = {"structure": s.summary(), "mode": "own hydrogens fed back with --keep-protons"}
         ctx.account(case, v, info)
 
-    ctx.hypothesis_stage("keep-protons-complement", gen.structures(max_res=30, allow_clash=False, allow_hetero=False),
+    ctx.hypothesis_stage("keep-protons-complement", gen.structures(max_res=30, allow_clash=False, allow_hetero=True),
                          kp_body, 400 if quick else 6000)
 
     @st.composite
@@ -297,5 +297,11 @@ def run_shard(ctx):
             v, info = check_case(case)
             info["sample"] = {"structure": "corpus " + n, "optargs": opt}
             ctx.account(case, v, info)
+        # the program's own hydrogens (ligand hydrogens on carbon included) written into the file and kept
+        case = {"pdb": pdbio.write([a for a in ents if not a.is_h]), "feed_back": True, "orientation": False}
+        v, info = check_case(case)
+        info["sample"] = {"structure": "corpus %s without the hydrogens of the file" % n,
+                          "optargs": ["--keep-protons"], "hydrogens": "own, fed back"}
+        ctx.account(case, v, info)
 
     ctx.loop_stage("corpus-files", mine, corpus_body)
